@@ -84,6 +84,9 @@ class TypeRef:
     names: tuple  # python type tags accepted by isinstance
 
 
+# stand-ins whose attribute set is complete by construction: a missing attribute is really missing
+CLOSED_STUBS = {"Meta", "Token", "ValidationError", "Context"}
+
 # pure string functions of os.path: modelled as opaque terms over their arguments (two calls with the same
 # arguments give the same term, different arguments different terms)
 OS_PATH_PURE = ("os.path.abspath", "os.path.join", "os.path.dirname", "os.path.basename", "os.path.normpath", "os.path.realpath", "os.path.splitext", "os.path.normcase", "os.path.expanduser")
@@ -380,6 +383,7 @@ class Interp:
         if cls_qual in DICT_CLASSES:
             return self.make_dict(cls_qual, args, kwargs)
         inst = Inst(cls_qual)
+        inst.constructed = True
         init = self.facts.method(cls_qual, "__init__")
         if init and not init.startswith("ext:"):
             self.call_qual(init, inst, args, kwargs)
@@ -971,6 +975,9 @@ class Frame:
                 return FuncRef(m, self_obj=obj)
             if m:
                 return FuncRef(None, builtin="extmethod:" + m[4:], self_obj=obj)
+            if not getattr(obj, "constructed", False):
+                # an instance a harness assembled by hand: a missing attribute says nothing about the repository code
+                raise AnalysisError(f"attribute {name} of a hand-assembled {obj.cls} instance is not set (build it through its constructor)")
             raise PyExc("AttributeError", (name,), node)
         if isinstance(obj, SObj):
             if name in obj.attrs:
@@ -984,6 +991,9 @@ class Frame:
                 return FuncRef(None, builtin="method:" + name, self_obj=obj.attrs.get("value"))
             if obj.pytype == "Logger" or name in getattr(obj, "methods", ()):
                 return FuncRef(None, builtin="method:" + name, self_obj=obj)
+            if obj.pytype not in CLOSED_STUBS:
+                # a stand-in for an object of another library: what it lacks is a gap of the model, not of the code
+                raise AnalysisError(f"attribute {name} of the {obj.pytype} stand-in is not modelled")
             raise PyExc("AttributeError", (f"{obj.label}.{name}",), node)
         if isinstance(obj, ModRef):
             if obj.name.startswith("ext:"):
